@@ -324,18 +324,21 @@ def history_generic(run, tier):
     import props_mini as pm
     rnd = random.Random(seed() * 41 + 29)
     n = 120 if tier == "quick" else 1200
-    progs = []
+    progs, impl = [], []
     for i in range(n):
-        p = sample_program(rnd, i)
-        progs.append((render(p, list(range(len(p["impls"]))), False, False), ["%s: %s" % (show(g["ty"]), TR[g["tr"]]) for g in p["goals"][:4]] + OPEN_GOALS))
+        p = sample_program(rnd, i); impl.append(p)
+        progs.append((render(p, list(range(len(p["impls"]))), False, False), ["%s: %s" % (show(g["ty"]), TR[g["tr"]]) for g in p["goals"][:4]] + OPEN_GOALS,
+                      "cyclic" if cyclic(p["impls"]) else "acyclic", i))
+    recs = implmc_records(run, impl, "C10impl")
+    if recs is None: return
     for p in pm.sample_programs(n, rnd, False):
         if pm.co_generic(p) or not pm.mini_coherent(p): continue         # overlapping impls: the order of answers decides (see C13)
-        progs.append((pm.render_mini(p), list(pm.GOALS)))
+        progs.append((pm.render_mini(p), list(pm.GOALS), "mini", None))
     nh = 0
     for solver in (gc.SLG, gc.REC):
         sname = gc.solver_name(solver)
         jobs = []
-        for text, goals in progs:
+        for text, goals, frag, pid in progs:
             jobs.append({"id": len(jobs), "program": text, "solver": solver, "limits": True, "ops": [{"op": "solve", "goal": g, "fresh": True} for g in goals]})
             h1 = list(range(len(goals))) + list(range(len(goals)))
             h2 = list(reversed(range(len(goals)))) + list(range(len(goals)))
@@ -344,7 +347,7 @@ def history_generic(run, tier):
                 jobs.append({"id": len(jobs), "program": text, "solver": solver, "limits": True, "hist": h, "ops": [{"op": "solve", "goal": goals[i]} for i in h]})
         obs = harness.run("solve", jobs, timeout=300)
         it = iter(zip(jobs, obs))
-        for text, goals in progs:
+        for text, goals, frag, pid in progs:
             _, fresh = next(it)
             hist = [next(it), next(it)]
             base = {"solver": sname, "src": "history-generic"}
@@ -362,7 +365,16 @@ def history_generic(run, tier):
                         # did a size limit cut the search short -- in the fresh solve, or anywhere in the history so far (a table that has
                         # floundered stays floundered for later queries)?
                         lim = f.get("limits", 0) > 0 or any(x.get("limits", 0) > 0 for x in o["results"][:pos + 1])
-                        run.violation(dict(base, what="answer on a used solver differs from a fresh solver's", limits=lim),
+                        # recursive solver, cyclic program, both answers ambiguous: only the guidance differs (known finding KF16-C10: a fixed-point
+                        # loop that stops unconverged gives no guidance, F26; with the subgoals already cached there is no loop)
+                        # the same goes for `No possible solution` vs `Ambiguous` as long as both answers are right by the meaning (ImplMC.tla)
+                        amb = ("Unknown", "Definite", "Suggested")
+                        kind = "guidance only" if r.get("class") in amb and f.get("class") in amb else "answer"
+                        if kind == "answer" and pid is not None and 4 <= gi < 4 + len(OPEN_CONJ):
+                            sols = recs[pid]["sols"][gi - 4]
+                            if judge_open(r, sols) is None and judge_open(f, sols) is None and "Unique" not in (r.get("class"), f.get("class")):
+                                kind = "precision only"
+                        run.violation(dict(base, what="answer on a used solver differs from a fresh solver's", limits=lim, fragment=frag, differs=kind),
                                       {"program": text, "solver": solver, "history": [goals[i] for i in job["hist"][:pos + 1]], "fresh": f, "observed": r}); break
                 if not bad: run.traces += 1; nh += 1
     run.extra["first_order_history_programs"] = len(progs)
